@@ -93,8 +93,11 @@ def project(weights,
   if range_dominances:
     range_dominances = [(j, i) for i, j in range_dominances]
     scalings = [-1.0 if m == -1 else 1.0 for m in monotonicities]
+    # Only dimensions which participate in a range dominance are rescaled:
+    # other dimensions may have a zero-width input range.
+    dominance_dims = set(dim for dims in range_dominances for dim in dims)
     for dim, (lower, upper) in enumerate(zip(input_min, input_max)):
-      if lower is not None and upper is not None:
+      if dim in dominance_dims and lower is not None and upper is not None:
         scalings[dim] *= upper - lower
     scalings = tf.constant(
         scalings, dtype=weights.dtype, shape=(weights.shape[0], 1))
